@@ -60,6 +60,16 @@ Proof.
     assert (e1 = e) by congruence. assert (ucmd cid (set_evs rest) H1 = H') by congruence. subst. auto.
 Qed.
 
+(* The same pipeline discipline for apps written against the legacy capability API (update_app pushes to the same
+   FIFO channel): applied ++ waiting only ever grows at its end, through any executor pass and the event loop. *)
+From Crux Require Rt.Legacy Rt.LegacyProps.
+Theorem C03_legacy_pipeline_only_grows : forall fuel hs k k', Legacy.lprocess fuel hs k = Some k' ->
+  exists l, LegacyProps.lpipeline k' = LegacyProps.lpipeline k ++ l.
+Proof. intros fuel hs k k' E. destruct (LegacyProps.lprocess_spec fuel hs k k' E) as (P & _). exact P. Qed.
+Theorem C03_legacy_executor_only_appends : forall fuel k k', Legacy.lrun_all fuel k = Some k' ->
+  Legacy.l_log k' = Legacy.l_log k /\ exists l, Legacy.l_events k' = Legacy.l_events k ++ l.
+Proof. intros fuel k k' E. destruct (LegacyProps.lrun_all_spec fuel k k' E) as ((A & B & _) & _). split; [exact A | exact B]. Qed.
+
 (* NOT proved (carried by the correspondence: the runtime model's traces, which fix the order of every log,
    are compared with the implementation's on every generated case): that two events emitted by ONE task deep
    inside nested commands keep their order on the whole way up to the core's channel.  Stating it needs the
